@@ -172,7 +172,9 @@ Section AtomsP.
     assert (HA : A pop ch [] = true) by (unfold PA in He; cbn in He; exact He).
     assert (Hdiff : forall Y, forallb Rg (upgrade_ordering (diff rs Y)) = true).
     { intros Y. apply forallb_upgrade'. rewrite forallb_forall in *. intros x Hx. apply In_diff in Hx. apply Hrs. tauto. }
-    cbn [sum_simplify_gen]. destruct (set_eqb rs _); [reflexivity|].
+    cbn [sum_simplify_gen].
+    match goal with |- PA (if ?g then _ else _) = true => destruct g; [apply PA_sum_raw; assumption|] end.
+    destruct (set_eqb rs _); [reflexivity|].
     destruct (subset (dedup (map get_base ch)) rs).
     { destruct old; [reflexivity|]. apply PA_sum_raw; [reflexivity|apply Hdiff]. }
     destruct (subset rs (dedup (map get_base ch))).
